@@ -27,8 +27,8 @@ import time
 from fractions import Fraction
 
 import c19_harness as H
-from vlib import (AU_INC, CONFIGS, REPO, SAN_CLANG, SAN_GCC, UBSAN_ENV, Driver, cxx, finish, kv, pmap, prove,
-                  rng_for, run, workdir)
+from vlib import (AU_INC, CONFIGS, REPO, UBSAN_ENV, Driver, cxx, finish, kv, link_cmd, pmap, prove, rng_for, run,
+                  workdir)
 
 PROP = "C19"
 ASSUME = [
@@ -288,8 +288,7 @@ def build_harness(wd, files, compiler, std, tag, opt):
             return None, {"src": src, "output": out[-4000:]}
         objs.append(obj)
     exe = os.path.join(wd, f"harness_{tag}")
-    san = SAN_CLANG if compiler.startswith("clang") else SAN_GCC
-    rc, out, err = run([compiler] + san + objs + ["-o", exe])
+    rc, out, err = run(link_cmd(compiler, objs, exe))
     if rc != 0:
         return None, {"src": "link", "output": (out + err)[-4000:]}
     return exe, None
@@ -483,13 +482,16 @@ def explore(tier, seed, rng, wd):
     files = H.write_harness(wd, units, insts, periods)
     certs = {r: kv(a) for r, a in zip(H.REPS, drv.ask([f"c19 cert {r}" for r in H.REPS]))}
 
-    # configurations: g++ c++14 carries the full instance set; the others a seed-chosen quarter (quick)
+    # configurations: g++ c++14 (ASan+UBSan) carries the full instance set; "exact" = clang++-14 with the exact-count
+    # UBSan handlers (every undefined operation / unsigned wrap of every input is counted) on a seed-chosen sixth
+    # (quick) / third (thorough); thorough adds the five other compiler x standard configurations
     others = [c for c in CONFIGS if c != ("g++", "c++14")]
+    std2 = ["c++14", "c++17", "c++20"][seed % 3]
     if tier == "quick":
-        configs = [("g++", "c++14", 1, "-O0"), others[seed % len(others)] + (6, "-O0")]
+        configs = [("g++", "c++14", 1, "-O0"), ("exact", std2, 6, "-O0")]
     else:
-        configs = [("g++", "c++14", 1, "-O1")] + [c + (1 if c[0].startswith("clang") and c[1] == "c++17" else 3, "-O1")
-                                                   for c in others]
+        configs = [("g++", "c++14", 1, "-O1"), ("exact", std2, 3, "-O1")] + \
+                  [c + (1 if c[0].startswith("clang") and c[1] == "c++17" else 3, "-O1") for c in others]
     stats = {"units": len(units), "unit_kinds": {}, "instances": len(insts), "configs": [], "sweeps": 0,
              "sweep_values": 0, "sweep_classes": {"neg": 0, "zero": 0, "pos": 0, "nan": 0}, "points": 0, "pairs": 0,
              "pairs_model_ub": 0, "point_classes": {"neg": 0, "zero": 0, "pos": 0, "nan": 0, "inf": 0, "subnormal": 0,
@@ -510,7 +512,7 @@ def explore(tier, seed, rng, wd):
 
     for ci, (compiler, std, stride, opt) in enumerate(configs):
         cfg = f"{compiler} -std={std}"
-        tag = ("g" if compiler == "g++" else "c") + std[-2:]
+        tag = {"g++": "g", "exact": "x"}.get(compiler, "c") + std[-2:]
         sub = insts if stride == 1 else [i for i in insts if (i["u"] + H.REPS.index(i["rep"]) + seed) % stride == 0]
         cwd = os.path.join(wd, tag)
         os.makedirs(cwd, exist_ok=True)
@@ -526,7 +528,8 @@ def explore(tier, seed, rng, wd):
                 "class": "harness-build", "rec": {"kind": "build", "config": cfg}, "no_input": True,
                 "broken": "correspondence: AuModel.Zero.convertZero / binop accept what the compiler rejects", "detail": err})
             continue
-        stats["configs"].append(f"{cfg} {opt} ({len(sub)} instances)")
+        stats["configs"].append(f"{cfg} {opt} ({len(sub)} instances)" +
+                                (" [clang++-14, exact-count UBSan handlers]" if compiler == "exact" else ""))
         # ---- D lines -------------------------------------------------------------------------
         dl, _ = run_block(exe, "D")
         for l in dl:
@@ -653,6 +656,10 @@ def explore(tier, seed, rng, wd):
                     samples.append({"request": f"c19 eval {ins['u']} {rep} {model_val(rep, str(x))}", "model": ma, "harness": a})
             else:
                 stats["pairs"] += 1
+                if kv(a).get("ub", "0") != "0" and not INT_INFO.get(promote(rep) if rep in INT_INFO else "", (0, True))[1]:
+                    # observation, not a violation: a + b / a - b on two arbitrary unsigned quantities wraps (defined
+                    # behaviour; C19 promises nothing about it) and the exact-count build reports it
+                    stats["pair_unsigned_wrap_reports"] = stats.get("pair_unsigned_wrap_reports", 0) + 1
                 check_pair(ins, units, cfg, x, a, violations, vrec)
         stats["timing"]["run_" + tag] = round(time.time() - tb, 1)
     # ---- negative probes ---------------------------------------------------------------------
